@@ -176,12 +176,43 @@ func snapLenFacts() string {
 			reaches = false
 		}
 	}
-	if fd := findFunc(af, "Source", "ReadPacketData"); fd == nil || len(fd.Body.List) != 2 ||
-		!strings.HasSuffix(src(fd.Body.List[0]), ".handle.ZeroCopyReadPacketData()") ||
-		!strings.HasPrefix(src(fd.Body.List[0]), "data, ci, err := ") || src(fd.Body.List[1]) != "return data, &ci, err" {
+	// ReadPacketData: the ring's bytes as they are — either every frame, or every frame that carried no VLAN tag
+	// (`for { data, ci, err := s.handle.ZeroCopyReadPacketData(); if err == nil && vlanTagged(&ci) { continue };
+	// return data, &ci, err }`, vlanTagged = "ci.AncillaryData holds an afp.AncillaryVLAN")
+	dropsTagged := false
+	readOK := false
+	if fd := findFunc(af, "Source", "ReadPacketData"); fd != nil {
+		body := fd.Body.List
+		if len(body) == 1 {
+			if loop, ok := body[0].(*ast.ForStmt); ok && loop.Init == nil && loop.Cond == nil && loop.Post == nil && len(loop.Body.List) == 3 {
+				if src(loop.Body.List[1]) == "if err == nil && vlanTagged(&ci) { continue }" {
+					body = []ast.Stmt{loop.Body.List[0], loop.Body.List[2]}
+					dropsTagged = true
+				}
+			}
+		}
+		if len(body) == 2 && strings.HasSuffix(src(body[0]), ".handle.ZeroCopyReadPacketData()") &&
+			strings.HasPrefix(src(body[0]), "data, ci, err := ") && src(body[1]) == "return data, &ci, err" {
+			readOK = true
+		}
+	}
+	if dropsTagged {
+		// vlanTagged must be exactly the test for an AncillaryVLAN entry
+		vt := findFunc(af, "", "vlanTagged")
+		want := []string{
+			"for _, a := range ci.AncillaryData { if _, ok := a.(afp.AncillaryVLAN); ok { return true } }",
+			"return false",
+		}
+		if vt == nil || len(vt.Body.List) != len(want) || src(vt.Body.List[0]) != want[0] || src(vt.Body.List[1]) != want[1] {
+			problem("snaplen: afpacket.vlanTagged is not the test for an afp.AncillaryVLAN entry")
+			dropsTagged = false
+		}
+	}
+	if !readOK {
 		problem("snaplen: afpacket.Source.ReadPacketData does not return the ring's bytes as they are")
 		reaches = false
 	}
+	all["wiring.dropsVlanTagged"] = dropsTagged
 	all["wiring.snaplenReachesSocket"] = reaches
 
 	var sb strings.Builder
@@ -189,5 +220,7 @@ func snapLenFacts() string {
 	sb.WriteString("def snapLens : List (SxVerif.Bpf.FilterFn × Nat) := [" + strings.Join(entries, ", ") + "]\n\n")
 	sb.WriteString("/-- `SetBPFFilter` compiles the program with that length as its accept value, the ring is opened with gopacket's\n    default geometry and `ReadPacketData` returns the ring's bytes unchanged: an accepted frame reaches the processor\n    cut to exactly that many bytes -/\n")
 	sb.WriteString("def snaplenReachesSocket : Bool := " + leanBool(reaches) + "\n\n")
+	sb.WriteString("/-- `afpacket.Source.ReadPacketData` skips every frame the kernel delivered with a VLAN tag beside it\n    (`afpacket.AncillaryVLAN` in the capture info) -/\n")
+	sb.WriteString("def dropsVlanTagged : Bool := " + leanBool(dropsTagged) + "\n\n")
 	return sb.String()
 }
